@@ -203,9 +203,11 @@ def render_unit(f, sp):
             body += [f"{K('real', up)} :: {a}" for a in args]
         elif f["argdecl"] == "intent":
             body += [f"{K('real', up)}, {K('intent', up)}({K('in', up)}) :: {a}" for a in args]
-        elif f["argdecl"] == "dummyproc":
+        elif f["argdecl"] in ("dummyproc", "dummyprocopt"):
             body += [f"{K('interface', up)}", f"  {K('subroutine', up)} {args[0]}(k)", f"    {K('integer', up)} :: k", f"  {K('end subroutine', up)} {args[0]}", f"{K('end interface', up)}"]
             body += [f"{K('real', up)} :: {a}" for a in args[1:]]
+            if f["argdecl"] == "dummyprocopt":
+                body.append(f"{K('optional', up)} :: {args[0]}")
         if kind == "function" and f["resform"] in ("resultdecl",):
             body.append(f"{K('integer', up)} :: rr")
         if kind == "function" and f["resform"] == "namedecl":
@@ -281,6 +283,14 @@ def eval_unit(case):
                     bad.append(f"argument {a['name']}: declared real, reported {a.get('type')}")
                 if f["argdecl"] == "intent" and a.get("intent") != "in":
                     bad.append(f"argument {a['name']}: declared intent(in), reported {a.get('intent')!r}")
+        if f["argdecl"] in ("dummyproc", "dummyprocopt") and u["args"]:
+            a0 = u["args"][0]
+            if a0.get("type") is not None or a0.get("unresolved"):
+                bad.append(f"argument aa: declared by an interface block (a procedure), reported as {a0.get('type') or 'undeclared'}")
+            if a0.get("optional") != (f["argdecl"] == "dummyprocopt"):
+                bad.append(f"argument aa: declared {'optional' if f['argdecl'] == 'dummyprocopt' else 'not optional'}, reported optional={a0.get('optional')}")
+            if u.get("interfaces"):
+                bad.append(f"interface block of the dummy procedure also reported as an interface of the procedure: {[i['name'] for i in u['interfaces']]}")
         if sorted(u["attribs"]) != sorted(f["prefix"]):
             bad.append(f"prefixes: declared {sorted(f['prefix'])}, reported {u['attribs']}")
         if kind == "function":
